@@ -1064,6 +1064,21 @@ def queue_call(ex, n, st, name, objn, argn):
         return IntV(tail - head, ULONG)
     if name == 'empty':
         return BoolV(head >= tail)
+    if name == 'operator=':
+        v = ex.ev(argn[0], st)
+        if isinstance(v, ObjRef) and v.name != region:
+            for lf, lct in container_leaves(v.cls):
+                st.arr[(region, lf)] = st.array(v.name, lf, lct)
+                st.leafct[(region, lf)] = lct
+            st.length[region] = st.len_of(v.name)
+            sh = v.name + '.head'
+            if sh not in st.scal:
+                ex.new_scalar(st, sh, ULONG)
+            st.scal[hp] = st.scal[sh]
+            ex.logw(('r', region))
+            ex.logw(('len', region))
+            ex.logw(('s', hp))
+            return o
     raise ExtractionError(f'queue::{name}')
 
 
